@@ -139,7 +139,11 @@ func makeJWSRecipient(alg SignatureAlgorithm, signingKey interface{}) (recipient
 
 func (ctx *genericSigner) Sign(payload []byte) (*JsonWebSignature, error) {
 	obj := &JsonWebSignature{}
-	obj.payload = payload
+	// Keep a private copy: the object must not change when the caller reuses its slice.
+	if payload != nil {
+		obj.payload = make([]byte, len(payload))
+		copy(obj.payload, payload)
+	}
 	obj.Signatures = make([]Signature, len(ctx.recipients))
 
 	for i, recipient := range ctx.recipients {
